@@ -247,9 +247,14 @@ def _observed_plan(steps, kind, flags):
     res.extend([Atom("glyph")] * sum(1 for s in steps if s == "GlyphSet.writeGlyph"))
     res.append(Atom("contents"))
     if kind == "over":
+        # the final replace: the destination is moved aside, the temporary UFO moved in; dropping what was put aside
+        # (rmtree of a temporary directory with ignore_errors) is not a step that can fail and is not counted
+        moves = sum(1 for s in steps if s == "shutil.move")
         if any(s in ("shutil.rmtree", "os.remove") for s in steps):
             res.append(Atom("remove"))
-        if "shutil.move" in steps:
+        if moves >= 2:
+            res.append(Atom("aside"))
+        if moves >= 1:
             res.append(Atom("move"))
     # order of phases as the code performs them
     first = {}
